@@ -186,6 +186,43 @@ def multibyte_runs(rng, quick, shard):
                          "note": pad + run}, ensure_ascii=False).encode() + b"\n"
 
 
+def repeated_members(rng, bases):
+    def obj(pairs):
+        return "{" + ",".join("%s:%s" % (json.dumps(k), v) for k, v in pairs) + "}"
+
+    def ser(v, depth=0):
+        """value -> JSON text, repeating one member of one object in five"""
+        if isinstance(v, dict):
+            pairs = [(k, ser(x, depth + 1)) for k, x in v.items()]
+            if pairs and rng.random() < (0.2 if depth else 0.0):
+                k, t = rng.choice(pairs)
+                pairs.insert(rng.randrange(len(pairs) + 1), (k, rng.choice([t, "null", '"x"'])))
+            return obj(pairs)
+        if isinstance(v, list):
+            return "[" + ",".join(ser(x, depth + 1) for x in v) + "]"
+        return json.dumps(v)
+    yield "dup:plain", b'{"command":"version","command":"version"}\n'
+    yield "dup:other-value", b'{"command":"version","command":"sign"}\n'
+    yield "dup:unknown-member", b'{"command":"version","a":1,"a":2}\n'
+    yield "dup:empty-name", b'{"":1,"":2,"command":"version"}\n'
+    yield "dup:nested-only", b'{"command":"version","x":{"y":{"z":1,"z":1}}}\n'
+    yield "dup:in-array", b'{"command":"version","x":[{"k":1,"k":1}]}\n'
+    for name, req in sorted(bases.items()):
+        pairs = [(k, ser(v, 1)) for k, v in req.items()]
+        for _ in range(2):
+            k, t = rng.choice(pairs)
+            p2 = list(pairs)
+            p2.insert(rng.randrange(len(p2) + 1), (k, rng.choice([t, t, "null", "5", '""'])))
+            yield "dup:top:%s" % name, obj(p2).encode() + b"\n"
+        for k, v in req.items():
+            if isinstance(v, dict) and v:
+                inner = [(a, ser(b, 2)) for a, b in v.items()]
+                a, t = rng.choice(inner)
+                inner.insert(rng.randrange(len(inner) + 1), (a, rng.choice([t, "null", '"00"'])))
+                p2 = [(kk, obj(inner) if kk == k else tt) for kk, tt in pairs]
+                yield "dup:inside-%s:%s" % (k, name), obj(p2).encode() + b"\n"
+
+
 def json_hostile(rng, n, big):
     depths = [100, 500, 900, 1000, 1100, 5000, 20000] + ([100000] if big else [])
     digits = [10, 100, 1000, 4299, 4300, 4301, 5000, 10000]
@@ -525,6 +562,14 @@ def run_shard(spec, acc):
             feed(cls, False, line, {"kind": "json", "cls": cls, "v1": False,
                                     "line": line[:2048].hex() if len(line) < 4096 else None,
                                     "len": len(line), "head": line[:60].decode("latin1")})
+        # (2c) objects that repeat a member name (at the top, inside message / auth, in any
+        # nested object): well-formed JSON text that no dictionary serialises to - written
+        # out by hand here.  Whatever the manager makes of the repetition, it answers.
+        for cls, line in repeated_members(rng, c02.bases(random.Random(spec["seed"] + 23),
+                                                         False)):
+            acc.count("lines_with_a_repeated_member_name")
+            feed(cls, rng.random() < 0.15, line, {"kind": "line", "v1": False,
+                                                  "len": len(line), "line": line.hex()})
         # (2b) every nesting depth around the interpreter's limits, one by one: between the
         # depth the parser still accepts and the depth other recursive consumers (logging
         # the request, re-serialising it) still accept there are windows a few levels wide
